@@ -15,6 +15,30 @@ class CheckerError(Exception):
     """A limitation or internal error of the checker: never a verdict about the code."""
 
 
+class LibraryCrash(Exception):
+    """A bounded stand-in died of an exception raised INSIDE the library (innermost frame under src/pregex) that is not one of
+    the library's own exception classes - RecursionError, IndexError, re.error ...: the library failed with an unrelated error
+    on an input the stand-in built.  A verdict (violation without a minimised input), not a checker error."""
+
+    def __init__(self, task, exc_line, where):
+        super().__init__(f"{task}: {exc_line} at {where}")
+        self.task, self.exc_line, self.where = task, exc_line, where
+
+
+def _library_crash(task, stderr):
+    lines = stderr.strip().splitlines()
+    files = [l.strip() for l in lines if l.strip().startswith('File "')]
+    if not files or not lines:
+        return None
+    last = files[-1]
+    if os.path.join(SRC, "pregex") in last or "/re/" in last and any(os.path.join(SRC, "pregex") in f for f in files[-6:]):
+        exc = lines[-1].strip()
+        if exc.split(":")[0].split(".")[-1].endswith("Exception") and "pregex" in exc:
+            return None
+        return LibraryCrash(task, exc[:200], last[:200])
+    return None
+
+
 def native_env():
     env = dict(os.environ)
     env["PYTHONPATH"] = SRC + os.pathsep + VERIF
@@ -32,6 +56,10 @@ def native(task, payload=None, timeout=3600, hashseed=None):
     p = subprocess.run([NATIVE_PY, "-W", "ignore", "-m", "pvc.native", task], input=json.dumps(payload),
                        capture_output=True, text=True, env=env, cwd=VERIF, timeout=timeout)
     if p.returncode != 0:
+        lc = _library_crash(task + (" " + str((payload or {}).get("module", "")) + "." + str((payload or {}).get("func", "")) if task == "run_module" else ""),
+                            p.stderr)
+        if lc is not None:
+            raise lc
         raise CheckerError(f"native task {task} failed rc={p.returncode}: {p.stderr[-3000:]}")
     try:
         return json.loads(p.stdout)
